@@ -766,6 +766,7 @@ func analyzeCFG(fn *ssa.Function) *cfgInfo {
 // ---------------------------------------------------------------- function execution
 
 type retInfo struct {
+	nonNil map[int]bool // result positions syntactically known to be non-nil (if x != nil { return ..., x })
 	block int
 	cond string
 	vals []sval
@@ -904,10 +905,23 @@ func (x *Exec) execBody(fr *frame, st0 *State, reach0 string) ([]sval, *State, s
 				x.addEdge(fr, ci, ct, edges, b, b.Succs[0], reach, st, st0)
 			case *ssa.Return:
 				var vs []sval
-				for _, r := range t.Results {
+				nn := map[int]bool{}
+				for i, r := range t.Results {
 					vs = append(vs, x.val(fr, r, st))
+					if len(b.Preds) == 1 {
+						if iff, ok := b.Preds[0].Instrs[len(b.Preds[0].Instrs)-1].(*ssa.If); ok && b.Preds[0].Succs[0] == b {
+							if bo, ok := iff.Cond.(*ssa.BinOp); ok && bo.Op == token.NEQ && isNilConst(bo.Y) && bo.X == r {
+								nn[i] = true
+							}
+						}
+					}
+					if u, ok := r.(*ssa.UnOp); ok && u.Op == token.MUL {
+						if g, ok := u.X.(*ssa.Global); ok && x.eng.nonNilGlobals[g] {
+							nn[i] = true
+						}
+					}
 				}
-				rets = append(rets, retInfo{block: x.curBlock, cond: reach, vals: vs, st: st})
+				rets = append(rets, retInfo{block: x.curBlock, cond: reach, vals: vs, st: st, nonNil: nn})
 			case *ssa.Panic:
 				if ct == nil || !ct.MayPanic {
 					x.oblige("safety", "panic", reach, "false", "explicit panic is unreachable", t.Pos())
